@@ -4,7 +4,8 @@ Engine `dispatch`.  Op lines (see harness/dispatch.cpp, lean/Driver/DispatchEngi
   D <table> <locsize>+<slack> <msg>;<msg>;…  <spec-token>
   R <table> <locsize>+<slack> <msg>;<msg>;…  <spec-token>
 One line = one port tree and a batch of messages derived from it; every message is
-dispatched with and without a location buffer.  D: a tree built at run time (plain, or through
+dispatched with and without a location buffer — on fresh RtData objects, or (`<locsize>+<slack>+k`) all messages of
+the line on the same two RtData objects, set up once: an operation history.  D: a tree built at run time (plain, or through
 the library's ClonePorts / MergePorts); R: the harness' static tree made with the library's
 recursion macros rRecur / rRecurs / rRecurp / rRecursp.  The spec token (ignored by harness and
 driver) describes the tree structurally for the oracle, which is a small independent
@@ -34,6 +35,9 @@ THEOREMS = [
     "Rtosc.Ports.matches_eq_leaf_callbacks",
     "Rtosc.Ports.port_pointer_own",
     "Rtosc.Ports.obj_handed_down",
+    "Rtosc.Ports.obj_restored",
+    "Rtosc.Ports.obj_restored_noloc",
+    "Rtosc.Ports.history_obj_handed_down",
     "Rtosc.Ports.loc_in_bounds",
     "Rtosc.Ports.mkMsg_msgBuf",
     "Rtosc.Ports.cachedMk_eq",
@@ -67,7 +71,11 @@ RULE = ("port trees are generated per the quantifier: 1..24 names per table over
         "alternative, extensions, proper prefixes, unrelated, empty; base dispatch with leading '/', a share of non-base "
         "dispatches; location buffer sometimes exactly as large as the address needs; the message in an exact-size heap "
         "block with as many spare bytes as the longest ':types' alternative of the tree has characters (none for a tree "
-        "without type specs).  Every message is dispatched with and without location buffer.  Non-trivial = the tree has "
+        "without type specs).  Every message is dispatched with and without location buffer; 35 % of the lines are "
+        "operation histories on one RtData: the two RtData objects (root object, location buffer) are set up once and "
+        "used for all 6..14 messages of the line, so that every dispatch starts with the d.obj / d.port / d.loc / "
+        "d.matches the one before left behind; the others use fresh RtData objects per message; d.obj after every "
+        "dispatch is observed.  Non-trivial = the tree has "
         "at least two ports; distinct = distinct op line")
 ASSUMPTIONS = [
     "port names of the documented form restricted to literal text and #N (C05 Pat.WF without {} groups; any byte but NUL "
@@ -79,6 +87,10 @@ ASSUMPTIONS = [
     "not touch RtData; the element that rRecursCb / rRecurspCb hand down for 'name#N/' is modelled separately "
     "(Ports/Sugar.lean, theorem recurs_index) and compared with the code on the R lines, the dispatch theorems name the "
     "object by the path of its port",
+    "'the runtime object handed down by the parent levels' is, for the root table, the object the caller put into "
+    "RtData - once, for all the messages it dispatches with that RtData: every dispatch must leave d.obj as it found it "
+    "(every branch of Ports::dispatch ends in `d.obj = obj`; theorems obj_restored, history_obj_handed_down; observed "
+    "after every dispatch and through the histories on one RtData)",
     "the model mirrors ports.cpp with fixes/C04-01..06 applied; C05's model of rtosc_match (with fixes/C05-colon-address "
     "and fixes/C05-args-overread: nothing behind the type string's NUL is read, so no hypothesis on the buffer behind "
     "the message is left)",
@@ -96,7 +108,9 @@ LEVEL_TEXT = ("Lean theorems for all port trees of any size over literal and #N 
               "whatever follows the message in its buffer: the callbacks "
               "invoked are exactly the ports whose path matches level by level and whose type spec admits the tags (plus "
               "the default handler of a reached table in which nothing matches), each once, with the object of the parent "
-              "level, the full address in loc, its own port pointer, matches = number of leaf callbacks, loc restored; the "
+              "level, the full address in loc, its own port pointer, matches = number of leaf callbacks, loc and d.obj "
+              "restored, hence the same for every dispatch of any history of dispatches on one RtData "
+              "(history_obj_handed_down); the "
               "hashed lookup is sound for arbitrary hash tables and complete for every table the guards of "
               "generate_minimal_hash accept, whatever the heuristic search did, hence the callback log is the same with "
               "and without location buffer.  The model is compared with the compiled code on generated trees x derived "
@@ -427,28 +441,37 @@ def check_table(t, tpath, objs, rest, off, locp, tags, pool, withloc, counts, su
             raise Bad("default handler of %s saw loc %r, expected %r" % (show_path(tpath), c["loc"], locp))
 
 
-def check_msg(tree, tok, res, sugar):
+def check_msg(tree, tok, res, sugar, state):
+    """`state`: what the RtData objects held before this dispatch — {"m": d.matches of the one with location
+    buffer, "pL" / "pN": d.port ("-" none, "*" not printed)}; updated to what this dispatch left behind.  (d.obj
+    is the caller's root object: a dispatch that leaves anything else behind is reported here.)"""
     base = tok[0] == "B"
     a, t = tok[1:].split(":")
     addr, tags = unhx(a), unhx(t)
     if res.startswith("crash") or res == "oob" or res.startswith("bad"):
         return "implementation output %r" % res
     wl, nl = res.split("/")
-    # with location buffer: [..]m<k>p<port>l<ok|hex>
+    # with location buffer: [..]m<k>p<port>l<ok|hex>o<obj>
     rb = wl.index("]")
     logL = parse_log(wl[:rb + 1])
     tail = wl[rb + 1:]
+    oi = tail.rindex("o")
+    objL = tail[oi + 1:]
+    tail = tail[:oi]
     mi, pi, li = tail.index("m"), tail.index("p"), tail.rindex("l")
     matches = int(tail[mi + 1:pi])
     portL = tail[pi + 1:li]
     loc_after = tail[li + 1:]
     rb2 = nl.index("]")
     logN = parse_log(nl[:rb2 + 1])
-    portN = nl[rb2 + 2:]
+    tailN = nl[rb2 + 1:]
+    oi = tailN.rindex("o")
+    objN = tailN[oi + 1:]
+    portN = tailN[1:oi]
     skip = 1 if base and addr[:1] == b"/" else 0
     rest = addr[skip:]
     try:
-        for log, withloc, fport in ((logL, True, portL), (logN, False, portN)):
+        for log, withloc, fport, pkey, obj_after in ((logL, True, portL, "pL", objL), (logN, False, portN, "pN", objN)):
             for c in log:
                 if c["kind"] not in "PD":
                     raise Bad("a callback that does not belong to the table that is dispatched was invoked: %s" % c["text"])
@@ -459,13 +482,30 @@ def check_msg(tree, tok, res, sugar):
             check_table(tree, (), [], rest, skip, b"/", tags, pool, withloc, counts, sugar)
             for left in pool.values():
                 raise Bad("unexpected callback %s" % left[0]["text"])
-            if withloc and matches != counts["leaf"]:
-                raise Bad("matches = %d but %d leaf callbacks were invoked" % (matches, counts["leaf"]))
-            # d.port after the dispatch (printed when the invoked ports form one chain): the deepest one
-            if fport not in ("*", "-"):
-                deepest = max([c["path"] for c in log if c["kind"] == "P"], key=len, default=None)
+            if withloc:
+                # a root dispatch counts from 0, any other adds to what d.matches held
+                want = (0 if base else state["m"]) + counts["leaf"]
+                if matches != want:
+                    raise Bad("matches = %d but %d leaf callbacks were invoked%s" % (
+                        matches, counts["leaf"], "" if base or not state["m"] else " and it was %d before" % state["m"]))
+                state["m"] = matches
+            # d.port after the dispatch (printed when the invoked ports form one chain): the deepest one; what it
+            # was before when no port was invoked
+            ppaths = [c["path"] for c in log if c["kind"] == "P"]
+            if not ppaths and not sugar:
+                if state[pkey] != "*" and fport != state[pkey]:
+                    raise Bad("d.port after the dispatch is %s although no port was invoked (before: %s)" % (fport, state[pkey]))
+            elif fport not in ("*", "-"):
+                deepest = max(ppaths, key=len, default=None)
                 if deepest is None or fport != "P" + show_path(deepest):
                     raise Bad("d.port after the dispatch is %s" % fport)
+            state[pkey] = fport
+            # the object the caller supplied is the one the root table's callbacks are handed, in this dispatch and
+            # in the next one made with the same RtData
+            if obj_after != "r":
+                raise Bad("d.obj after the dispatch %s location buffer is the object %s, not the one the caller supplied: "
+                          "the next dispatch with this RtData hands it to the root table" % (
+                              "with" if withloc else "without", obj_after))
         kL = sorted((c["kind"], c["path"], c["off"] or 0) for c in logL)
         kN = sorted((c["kind"], c["path"], c["off"] or 0) for c in logN)
         if kL != kN:
@@ -476,6 +516,15 @@ def check_msg(tree, tok, res, sugar):
     except Bad as e:
         return "%s [message %s %r tags %r]" % (e, "base" if base else "sub", addr, tags)
     return None
+
+
+def fresh_state():
+    return {"m": 0, "pL": "-", "pN": "-"}
+
+
+def kept(op_words):
+    """the line is an operation history on one RtData (sizes token <locsize>+<slack>+k)"""
+    return op_words[2].endswith("+k")
 
 
 def oracle(op, impl_out):
@@ -489,10 +538,14 @@ def oracle(op, impl_out):
     res = impl_out.split("|")
     if len(res) != len(toks):
         return "%d results for %d messages" % (len(res), len(toks))
-    for tok, r in zip(toks, res):
-        f = check_msg(tree, tok, r, w[0] == "R")
+    keep = kept(w)
+    state = fresh_state()
+    for k, (tok, r) in enumerate(zip(toks, res)):
+        if not keep:
+            state = fresh_state()
+        f = check_msg(tree, tok, r, w[0] == "R", state)
         if f:
-            return f
+            return f + (" [message %d of a history on one RtData]" % (k + 1) if keep else "")
     return None
 
 
@@ -844,6 +897,8 @@ def idx_ok(addr):
     return True
 
 
+KEEP_SHARE = 0.35
+
 MSG_KINDS = ["exact", "exact", "exact", "append", "remove", "change", "case", "prefix", "noslash", "addslash",
              "insert", "N-1", "N", "N+1", "stop", "random"]
 
@@ -908,7 +963,9 @@ def op_line(rng, t, nmsg, stats, kind="D"):
     need = max(len(unhx(m[1:].split(":")[0])) for m in msgs) + 2
     locsize = need if rng.random() < 0.3 else rng.choice([64, 128, 1024])
     locsize = max(locsize, need)
-    return "%s %s %d+%d %s %s" % (kind, table_token(t), locsize, slack_for(t), ";".join(msgs), spec_token(t))
+    # a third of the lines are operation histories on one RtData: set up once, used for every message
+    keep = "+k" if rng.random() < KEEP_SHARE else ""
+    return "%s %s %d+%d%s %s %s" % (kind, table_token(t), locsize, slack_for(t), keep, ";".join(msgs), spec_token(t))
 
 
 # --------------------------------------------------------------------------------------
@@ -947,7 +1004,7 @@ def generate(rng, tier, stats):
     stats.update({"via_clone_or_merge": 0, "tables": 0, "size": {}, "depth": {}, "dflt": 0, "msg_kind": {}, "tag_kind": {},
                   "with_enum": 0, "with_multi": 0, "with_enum_and_inner_slash": 0, "with_types": 0, "with_wide_chars": 0,
                   "with_high_bytes": 0, "long_keys": 0, "slack": {}, "sugar_lines": 0, "big_tables": 0,
-                  "hashable_tables": 0, "all_tables": 0, "messages": 0})
+                  "hashable_tables": 0, "all_tables": 0, "messages": 0, "histories_on_one_RtData": 0})
     ops = []
     st = sugar_tree()
     for k in range(ntab + nbig):
@@ -988,11 +1045,13 @@ def generate(rng, tier, stats):
         sl = op.split()[2].split("+")[1]
         stats["slack"][sl] = stats["slack"].get(sl, 0) + 1
         stats["messages"] += op.split()[3].count(";") + 1
+        stats["histories_on_one_RtData"] += 1 if kept(op.split()) else 0
     for k in range(nsugar):
         op = op_line(rng, st, 14, stats, "R")
         ops.append(op)
         stats["sugar_lines"] += 1
         stats["messages"] += op.split()[3].count(";") + 1
+        stats["histories_on_one_RtData"] += 1 if kept(op.split()) else 0
     # which lookup strategy the tables really get is decided by the heuristic search: ask the model
     # (statistics only; the implementation's choice is not observable and not compared)
     try:
@@ -1021,4 +1080,4 @@ def neighbours(op, rng):
     for _ in range(40):
         msgs = gen_msgs(rng, tree, 14, st) or ["B2f61:-"]
         need = max(len(unhx(m[1:].split(":")[0])) for m in msgs) + 2
-        yield "%s %s %d+%s %s %s" % (w[0], w[1], max(need, 64), w[2].split("+")[1], ";".join(msgs), w[4])
+        yield "%s %s %d+%s %s %s" % (w[0], w[1], max(need, 64), "+".join(w[2].split("+")[1:]), ";".join(msgs), w[4])
